@@ -76,32 +76,88 @@ def setup_stubs(it):
 
 
 _DIGEST = {}
+T_PROBE = z3.String("t_probe")
+
+
+class Digest:
+    """The checksum recompile() stores, as a term over the text: D(t) = T[t_probe := t], where T is what a symbolic run of
+    the constructor leaves in _checksum.  `args(t)` are the arguments of the digest applications inside T (the
+    collision-freeness assumption is made on THOSE: h(a) = h(b) => a = b); `preprocessed` says that the text goes
+    through some other function before it is hashed (then D may be non-injective even with a perfect hash)."""
+
+    def __init__(self, term=None, cls=SHex):
+        if term is None:
+            term = digest_fn("md5")(T_PROBE)
+        self.term = term
+        self.cls = cls
+        self.apps = []
+        seen = set()
+
+        def walk(t):
+            if t.get_id() in seen:
+                return
+            seen.add(t.get_id())
+            if z3.is_app(t) and t.decl().kind() == z3.Z3_OP_UNINTERPRETED and t.decl().name().endswith("_utf8") \
+                    and t.num_args() == 1:
+                self.apps.append(t)
+                return
+            for c in t.children():
+                walk(c)
+        walk(term)
+        self.preprocessed = not (len(self.apps) == 1 and self.apps[0].arg(0).eq(T_PROBE))
+
+    def __call__(self, t):
+        return z3.substitute(self.term, (T_PROBE, t))
+
+    def value(self, t):
+        return self.cls(self(t))
+
+    def hashed(self, t):
+        return [z3.substitute(a.arg(0), (T_PROBE, t)) for a in self.apps]
+
+    def collision_free(self, t1, t2):
+        """equal checksums => equal hashed byte strings"""
+        if not self.apps:
+            return z3.BoolVal(True)
+        same_args = z3.And(*[a == b for a, b in zip(self.hashed(t1), self.hashed(t2))])
+        return z3.Implies(self(t1) == self(t2), same_args)
+
+    def describe(self):
+        return str(self.term)[:120]
+
+
+def _ids(t, acc=None):
+    acc = set() if acc is None else acc
+    if t.get_id() not in acc:
+        acc.add(t.get_id())
+        for c in t.children():
+            _ids(c, acc)
+    return acc
 
 
 def discover_digest():
-    """Which digest does recompile() store as checksum?  Probe: construct an evaluator from a symbolic text with a
-    successful compile and read the stored term (so a change of the checksum algorithm is not mistaken for a defect)."""
+    """Which checksum does recompile() store?  Probe: construct an evaluator from a symbolic text with a successful
+    compile and read the stored term (so a change of the checksum algorithm is not mistaken for a defect)."""
     if "fn" in _DIGEST:
         return _DIGEST["fn"]
-    fn = digest_fn("md5")
+    d = Digest()
 
     def entry(it):
         env = it.import_module(EVAL)
         cls = env.vars["ExperimentEvaluator"]
-        inst = it.call(cls, [SStr(z3.String("t_probe"))], {})
+        inst = it.call(cls, [SStr(T_PROBE)], {})
         return inst.attrs.get("_checksum")
     try:
         run = api.run(entry, opts={"float_mode": "real", "prune": True}, setup=setup_stubs)
         for p in run.paths:
-            if isinstance(p.outcome, Return) and isinstance(p.outcome.value, SHex):
-                t = p.outcome.value.term
-                if z3.is_app(t) and t.decl().kind() == z3.Z3_OP_UNINTERPRETED and t.num_args() == 1:
-                    fn = t.decl()
-                    break
+            if isinstance(p.outcome, Return) and isinstance(p.outcome.value, Sym) and \
+                    T_PROBE.get_id() in _ids(p.outcome.value.term):
+                d = Digest(p.outcome.value.term, type(p.outcome.value))
+                break
     except Exception:
         pass
-    _DIGEST["fn"] = fn
-    return fn
+    _DIGEST["fn"] = d
+    return d
 
 
 def step(kind):
@@ -113,7 +169,7 @@ def step(kind):
         t_new = SStr(z3.String("t_new"))
         md5 = discover_digest()
         other = PyInstance(cls)
-        other.attrs["_checksum"] = SHex(md5(z3.String("t_other")))
+        other.attrs["_checksum"] = md5.value(z3.String("t_other"))
         other_fn = OldFn("other-function")
         other.attrs["run_experiment"] = other_fn
         class_before = dict(cls.ns)
@@ -122,7 +178,7 @@ def step(kind):
         if kind == "recompile":
             inst = PyInstance(cls)
             old_fn = OldFn("old-function")
-            inst.attrs["_checksum"] = SHex(md5(t_old))
+            inst.attrs["_checksum"] = md5.value(t_old)
             inst.attrs["run_experiment"] = old_fn
             before = dict(inst.attrs)
             try:
@@ -143,7 +199,7 @@ def step(kind):
         else:  # call
             inst = PyInstance(cls)
             old_fn = OldFn("old-function")
-            inst.attrs["_checksum"] = SHex(md5(t_old))
+            inst.attrs["_checksum"] = md5.value(t_old)
             inst.attrs["run_experiment"] = old_fn
             before = dict(inst.attrs)
             x = SStr(z3.String("arg_x"))
@@ -156,7 +212,7 @@ def step(kind):
         class_changed = sorted(k for k in set(cls.ns) | set(class_before) if cls.ns.get(k) is not class_before.get(k))
         mod_changed = sorted(k for k in set(env.vars) | set(mod_before) if env.vars.get(k) is not mod_before.get(k))
         other_changed = (other.attrs.get("run_experiment") is not other_fn) or \
-            not isinstance(other.attrs.get("_checksum"), SHex)
+            not isinstance(other.attrs.get("_checksum"), Sym)
         return {"res": res, "before": before, "after": after, "inst": inst if kind != "init" or res[0] == "return" else None,
                 "class_changed": class_changed,
                 "module_changed": mod_changed, "other_changed": other_changed, "t_old": t_old, "t_new": t_new.term}
@@ -164,7 +220,7 @@ def step(kind):
 
 
 def checksum_term(v):
-    if isinstance(v, SHex):
+    if isinstance(v, Sym):
         return v.term
     return None
 
@@ -192,7 +248,7 @@ def analyse(kind, timeout_ms):
         snap = p.outcome.value
         res = snap["res"]
         t_old, t_new = snap["t_old"], snap["t_new"]
-        injective = z3.Implies(md5(t_old) == md5(t_new), t_old == t_new)
+        injective = md5.collision_free(t_old, t_new)
         conds = list(p.conds) + [injective]
         r, m = common.check(tally, conds, timeout_ms, label="C11 path reachable (%s)" % kind)
         if r == "unsat":
@@ -245,7 +301,13 @@ def analyse(kind, timeout_ms):
                 continue
             r, m = common.check(tally, conds + [t_old != t_new], timeout_ms,
                                 label="C11 compilation skipped although the text differs", keep_sample=True)
-            if r == "sat":
+            if r == "sat" and md5.preprocessed:
+                # the checksum is taken from a function of the text that the model leaves uninterpreted: whether two
+                # different programs share a checksum is decided by a bounded search over confusable texts
+                out["witnesses"].append({"kind": "lifecycle_search", "scenario": "stale-preprocessed",
+                                         "why": "recompile is skipped whenever %s coincides for the old and the new text, and "
+                                                "the text is transformed before it is hashed" % md5.describe(), "plain": ""})
+            elif r == "sat":
                 bad("recompile skips compilation for a text that differs from the accepted one", "stale")
             elif r == "unknown":
                 out["status"] = "inconclusive"
